@@ -326,6 +326,7 @@ SCHEMA = {
     108: ("eui6", ["eui"]), 109: ("eui8", ["eui"]),
     CH_A: ("n o16", ["domain", "address"]),
     20: ("q qopt", ["address", "subaddress"]),
+    250: ("nnr d48 d16 mac d16 ercode b64opt", ["algorithm", "time_signed", "fudge", "mac", "original_id", "error", "other"]),
     # composite kinds take several constructor arguments / attributes
     45: ("d8 gwi b64e", ["precedence", ("gateway_type", "algorithm", "gateway"), "key"]),
     260: ("d8 d1 gwa", ["precedence", "discovery_optional", ("relay_type", "relay")]),
@@ -339,7 +340,7 @@ SCHEMA = {
     16: ("txt", ["strings"]), 99: ("txt", ["strings"]), 258: ("txt", ["strings"]), 56: ("txt", ["strings"]),
     261: ("txt", ["strings"]), 262: ("txt", ["strings"]),
 }
-MAXV = {"d1": 1, "o16": 65535, "d8": 255, "d16": 65535, "d32": 2**32 - 1, "ttl": 2**32 - 1, "i8": 255, "i16": 65535}
+MAXV = {"d48": 2**48 - 1, "d1": 1, "o16": 65535, "d8": 255, "d16": 65535, "d32": 2**32 - 1, "ttl": 2**32 - 1, "i8": 255, "i16": 65535}
 # signature times around day / month / leap-year / century boundaries and the ends of the 32-bit range
 SIGTIMES = [0, 1, 59, 60, 3599, 3600, 86399, 86400, 68169599, 68169600, 951782399, 951782400, 951868799, 951868800,
             1709164800, 1709251199, 1709251200, 2**31 - 1, 2**31, 4107542399, 4107542400, 4294967295]
@@ -378,6 +379,10 @@ def gen_field(rng, kind):
         return [g, a, gw]
     if kind == "b64e":
         return b"" if rng.random() < 0.3 else (gen_bytes(rng, 60) or b"\x01")
+    if kind == "mac":
+        return gen_bytes(rng, 40) or b"\x00"
+    if kind == "ercode":
+        return rng.choice([0, 1, 5, 11, 12, 15, 16, 17, 18, 22, 23, 24, 4095, rng.randrange(4096)])
     if kind == "qopt":
         return b"" if rng.random() < 0.4 else gen_field(rng, "q1")
     if kind in ("hexstr", "b64tok"):
